@@ -169,7 +169,10 @@ pub fn run(opts: &Opts) -> i32 {
         for (gid, _, _, f) in &globals {
             gtext.push_str(&format!("    def x{gid} = {{ {} }} that\n", f.src().replace('\n', "\n      ")));
         }
+        // n-ary tuple patterns, multi-parameter functions and tuple matches as the surface offers them
+        crate::zcore::SUGAR.with(|f| f.set(made % 2 == 0));
         let text = body.src().replace('\n', "\n      ");
+        crate::zcore::SUGAR.with(|f| f.set(false));
         let plain = frame(&sig, &gtext, &format!("    def ! plain : Ret ({}) =\n      {text}\n    that\n", ty.src()), "! plain", &ty);
         let monadic = frame(&sig, &gtext, &format!("    def ! translated = @[monadic] begin\n      {text}\n    end that\n"), "! translated Ret { ! ret_monad }", &ty);
         // the same computation as a ZCore program for the Lean reference semantics: the globals as
